@@ -50,7 +50,10 @@ class DeformationOperation(BaseOperation):
         dict[str, Any]
             The dictionary representation of the operation.
         """
-        return {**super().to_dict(), "kwargs": {"max_value": self.max_value}}
+        return {
+            **super().to_dict(),
+            "kwargs": {"max_value": self.max_value, "mask": self.mask},
+        }
 
 
 class AnisotropicDeformation(DeformationOperation):
